@@ -333,6 +333,31 @@ def run_pipeline(env, pipeline, prior, seed=0):
         if not real_res:
             break
     out = compare(s.temp, ref_temp, real_res, ref_res, env)
+    if not out:
+        # the same algo objects used a second time on the same date with other temp contents first
+        # (one instance shared by two legs of a stack): what they answer must not depend on that
+        algos = [make(spec) for spec in pipeline]
+        w = build_target(env)
+        for warm_prior in (list(COLS),):
+            w.temp = {} if warm_prior is None else {"selected": list(warm_prior)}
+            try:
+                for a in algos:
+                    if not a(w):
+                        break
+            except Exception:
+                pass
+        s3 = build_target(env)
+        s3.temp = {}
+        if prior is not None:
+            s3.temp["selected"] = list(prior)
+        rt.seed_rng(seed)
+        res3 = True
+        for a in algos:
+            res3 = a(s3)
+            if not res3:
+                break
+        out3 = compare(s3.temp, ref_temp, res3, ref_res, env)
+        out += [("reused_instance_" + x[0], x[1], x[2]) for x in out3]
     if any(sp[0] == "SelectRandomly" for sp in pipeline) and not out:
         # reproducible under the seed
         s2 = build_target(env)
